@@ -119,8 +119,10 @@ def PC.published : PC → Bool
 looked at.  (At `retract` it has decided to leave but has not touched anything yet.) -/
 def PC.safe : PC → Bool := PC.published
 
-def PC.isRetract : PC → Bool
-  | .retract _ => true
+/-- The thread has passed its last exit check and has not yet done what follows it outside the safepoint:
+its retraction, or — after the gate of `with_locked_env` — its own stop request. -/
+def PC.leaving : PC → Bool
+  | .retract _ | .envReady => true
   | _ => false
 
 def PC.isStopper : PC → Bool
@@ -300,7 +302,8 @@ def State.noHostMid (s : State) : Bool := s.threads.all (fun th => !th.hostMid)
 * rounds do not overlap, do not overlap a spawn (every thread is registered when a round begins and no
   thread is spawned during it), and no `interrupt()` is issued or in flight during a round;
 * the stop request of a round is not sent to a thread (`paused.store(true)` of its entry) while that
-  thread is between its exit check and its retraction, or has an interrupt pending. -/
+  thread is between its last exit check and its retraction (or, after the gate of `with_locked_env`, its
+  own stop request), or has an interrupt pending. -/
 def G (s : State) (t : Tid) (a : Act) : Bool :=
   match s.threads[t]? with
   | none => true
@@ -311,7 +314,7 @@ def G (s : State) (t : Tid) (a : Act) : Bool :=
     | .step, .stopP _ i =>
         match s.threads[i]? with
         | none => true
-        | some x => i == t || (!x.pc.isRetract && x.st != .interrupted)
+        | some x => i == t || (!x.pc.leaving && x.st != .interrupted)
     | _, _ => true
 
 /-- Run a schedule while the guard holds; stops at the first line that violates it. -/
